@@ -12,9 +12,19 @@ LEVEL_TEXT = ("partial: Coq theorems over a small-step interleaving model of bot
               "limit, evictions as enforcer commits — and of the file store by forward simulation, distinct ids, "
               "delivered-stays-unless-removed) + forced-schedule "
               "correspondence on the real stores; data-race freedom in the Go memory-model sense and runtime deadlocks are "
-              "sampled by a -race stress run (thorough tier), not proved; the runner's linearizability oracle judges "
-              "implementation observations only for configurations without size limit")
-LEVEL_NOTE = ("the model cuts every operation into the atomic sections between verifhook.Point sites; Go's mutexes, channels and "
+              "sampled by a -race stress run (thorough tier), not proved; the runner's oracle judges every finished "
+              "execution: without size limit by the sequential specification seq_exec, with the size limit by the "
+              "sub-action specification qstep (Model/ConcEnfSpec.v)")
+LEVEL_NOTE = ("WITH the size limit the store is legitimately weaker than the sequential C08 specification and the oracle encodes "
+              "exactly this (Model/ConcEnfSpec.v, extracted): an operation is a sequence of atomic sub-actions inside its "
+              "call/return interval (delivery: insert+cap | tell the enforcer each cap eviction | register | unlink each victim; "
+              "removal: unlink | tell; purge: unlink all | tell each in any order); the enforcer's book changes only at tell / "
+              "register, so a message unlinked but not yet told about still counts and a delivered but unregistered one does "
+              "not; victims = shortest prefix of the book in REGISTRATION order that makes it fit, fixed at registration and "
+              "unlinked one by one while no other tell/register happens. A finished execution must be an interleaving of such "
+              "sub-actions consistent with the observed intervals. Executions that a forced schedule leaves unfinished (or that "
+              "block unexpectedly) are completed under control and judged too. "
+              "The model cuts every operation into the atomic sections between verifhook.Point sites; Go's mutexes, channels and "
               "scheduler are modelled (atomic sections, unbuffered rendezvous), not verified; the file store's message cap is "
               "outside the concurrency model. ASSUMED by the file model, not observable at hook granularity: an operation holds "
               "its bucket lock from before its index read to after its index commit (there is no hook site between lock "
